@@ -267,6 +267,8 @@ def srcOut (cfg : Cfg) (op : String) (a : Array Nat) : Option (List String) :=
   | "dr7_insert", [b, f] => some (sVal ((Src.Dr7Value_insert_flags cfg (b64 b) (b64 f)).map (·.2)))
   | "dr7_remove", [b, f] => some (sVal ((Src.Dr7Value_remove_flags cfg (b64 b) (b64 f)).map (·.2)))
   | "dr7_toggle", [b, f] => some (sVal ((Src.Dr7Value_toggle_flags cfg (b64 b) (b64 f)).map (·.2)))
+  | "ev_try_from", [n] => if n < 256 then some (sRes (Src.ExceptionVector_try_from_u8 cfg (b8 n))) else none
+  | "pat_from_bits", [n] => if n < 256 then some (sOpt (Src.PatMemoryType_from_bits cfg (b8 n))) else none
   | "darn_new", [n] => if n < 256 then some (sOpt (Src.DebugAddressRegisterNumber_new cfg (b8 n))) else none
   | "bc_from_bits", [n] => some (sOpt (Src.BreakpointCondition_from_bits cfg (b64 n)))
   | "bs_from_bits", [n] => some (sOpt (Src.BreakpointSize_from_bits cfg (b64 n)))
